@@ -350,6 +350,7 @@ func c13Segments(o *c13Out, seed int64, tier string) {
 	select {
 	case <-done:
 	case <-hangAfter(120 * time.Second):
+		noteHang()
 		o.crash("seg-hang", "concurrent segment games did not finish")
 		return
 	}
